@@ -6,7 +6,7 @@ CONSTANTS
   IntVals <- Q3_Ints
   SliceVals <- Q3_Slice
   StepVals = {2}
-  MaxExprs = 2
+  MaxExprs = 1
 INVARIANT InSpace
 INVARIANT InWindow
 INVARIANT ErrorOnlyFromInts
